@@ -19,6 +19,7 @@ import z3
 from contracts import cp_common as cc
 from contracts.C08 import _edge_types, _node
 from hv import core, extract, pyvc
+from hv import history
 from hv.driver import Bounded, Spec
 from hv.pyvc import to_z3
 
@@ -316,7 +317,7 @@ SPEC = Spec(
     lean=['Folds.lean'],
     prop=PROP, level="other",
     functions=[(CPA, "CPGraph._attribute_edge"), (CPA, "CPGraph._construct_graph_from_call_stack.common_parent"), (CPA, "bound_by"), (CPA, "CPGraph.get_critical_path_breakdown"), (CPA, "CPGraph.summary")],
-    units=units, bounded=[Bounded("breakdown_vs_graph", bounded)],
+    units=units, bounded=[Bounded("breakdown_vs_graph", bounded), Bounded("history_independence", history.stage(PROP, "critical_path", "cp"))],
     trusted=["is_comm_kernel is an uninterpreted predicate of the name", "the DFS state invariant last_ev_parent = parent(owner of last_node) (needed for 'covers' in case 4) is bounded only"],
     explanation="Proved (z3 from the AST): the attribution table and the bound-by table. Statement correspondence: record construction, join and summary. Bounded: row count, "
                 "conservation, existence / thread / coverage of attributed events, classes and shares on real analyses.",
